@@ -19,6 +19,7 @@
     (`spacing_df_needs_linear`; for the code: geo.Distance, known finding C17-geo-spacing-nonlinear).
 -/
 import OrbProofs.C17Lemmas
+import Generated.PkgState
 
 namespace Orb.Resample
 
@@ -201,6 +202,36 @@ theorem interval_total (trunc : K → Int) (htr : IsFloor trunc) (df : Pt K → 
   interval_total' trunc htr df hdf ls d
 
 end field
+
+/-! ### nothing outside the call (facts regenerated from the Go source by factgen, `Generated/PkgState.lean`)
+
+  The model `Orb.Resample` is a pure function of the line, the distance function and `N` / `d`.  For
+  the code that is a claim about more than one call: the result must not depend on the calls made
+  before, on the memory the argument lives in, or on what other goroutines do.  Dynamically this is
+  sampled (harness/c17_state.go: every call is repeated out of one reused vertex buffer whose
+  contents change in between; concurrent callers); statically, package resample has nowhere to keep
+  anything: no package-level variable, no goroutine, no import but orb.  (Trusted: factgen's
+  extraction — the kernel checks the tables, not the extractor.) -/
+
+open Generated.PkgState in
+/-- Package resample was found, and it declares no package-level variable that can carry state from
+    one call to the next or between goroutines (no cache, no scratch slice, no counter, no pool):
+    the list of its `var`s that are neither error values nor constants in disguise is empty. -/
+theorem no_package_state : packages.contains "resample" = true ∧ stateVars "resample" = [] := by decide
+
+open Generated.PkgState in
+/-- … in fact it declares no package-level variable of any kind. -/
+theorem no_package_vars : varsOf "resample" = [] := by decide
+
+open Generated.PkgState in
+/-- It starts no goroutine, imports nothing but package orb (no sync, no sync/atomic, no reflect, no
+    runtime, no os, no pointer arithmetic: nothing that holds state or identifies memory), and the only
+    package-qualified "call" in it is the conversion `orb.LineString(points)`: whatever it computes
+    it computes from its arguments, with `Point.Equal` and the caller's distance function. -/
+theorem resample_self_contained :
+    lookup goStmts "resample" = some [] ∧
+    lookup imports "resample" = some ["github.com/paulmach/orb"] ∧
+    lookup extCalls "resample" = some ["orb.LineString"] := by decide
 
 /-- The hypothesis `LinearAlong` of `resample_spacing_df` cannot be dropped.  A latitude-weighted
     distance (the rational analogue of geo.Distance: the east-west part is scaled by the mean
